@@ -30,6 +30,9 @@ try:
             jsonschema.validate(e, es)
             if e.get("tier") != "quick":
                 bad.append("%s: committed evidence is of tier %s" % (c["property_id"], e.get("tier")))
+            und = e.get("coverage", {}).get("undecided") or []
+            if und:
+                bad.append("%s: committed evidence lists %d undecided entries (stale ledger? rerun after --relock)" % (c["property_id"], len(und)))
             if e.get("violations") or e.get("checker_errors"):
                 bad.append("%s: evidence records violations / checker errors" % c["property_id"])
     na = set(x["property_id"] if isinstance(x, dict) else x for x in m.get("not_applicable", []))
